@@ -21,6 +21,18 @@ COQ = VERIF / "coq"
 BUILD = VERIF / "build"
 EVID = VERIF / "evidence"
 REPLAYS = VERIF / "replays"
+# the checks run against /repo; tools/try_seed.sh runs them against a scratch worktree carrying a seeded change
+# (VERIF_REPO), with every per-run output (case files, evidence, replays) redirected so that the record of /repo is untouched
+REPO = os.environ.get("VERIF_REPO", "/repo")
+if REPO != "/repo":
+    _alt = BUILD / ("alt_" + re.sub(r"\W+", "_", REPO))
+    EVID = _alt / "evidence"
+    REPLAYS = _alt / "replays"
+    CASES = _alt / "cases"
+    PA = _alt / "pa"
+else:
+    CASES = BUILD / "cases"
+    PA = BUILD / "pa"
 FINDINGS = VERIF / "known_findings.json"
 
 THEOREM_RE = re.compile(
@@ -104,7 +116,7 @@ def print_assumptions(prop):
     src = COQ / "Props" / f"{prop}.v"
     if not src.exists():
         return False, "no Props file", []
-    pad = BUILD / "pa"
+    pad = PA
     pad.mkdir(parents=True, exist_ok=True)
     rc, out = _run(
         ["timeout", "600", "coqc", "-Q", str(COQ), "CubedV", "-o", str(pad / f"{prop}.vo"), str(src)],
@@ -165,8 +177,8 @@ def cpair(a, b):
 def run_case_file(name, imports, defs, exprs, timeout=900):
     """exprs: list of Coq bool terms. Returns (failing index list, raw output, ok)."""
     BUILD.mkdir(exist_ok=True)
-    d = BUILD / "cases"
-    d.mkdir(exist_ok=True)
+    d = CASES
+    d.mkdir(parents=True, exist_ok=True)
     path = d / f"{name}.v"
     body = [f"From CubedV Require Import {imports}.", "Open Scope nat_scope.", defs or ""]
     for i, e in enumerate(exprs):
@@ -175,8 +187,17 @@ def run_case_file(name, imports, defs, exprs, timeout=900):
     body.append("Eval vm_compute in (failing all_cases).")
     path.write_text("\n".join(body) + "\n")
     rc, out = _run(
-        ["timeout", str(timeout), "coqc", "-Q", str(COQ), "CubedV", str(path)], cwd=d, timeout=timeout + 30
+        ["timeout", str(timeout), "coqc", "-noglob", "-Q", str(COQ), "CubedV", str(path)], cwd=d, timeout=timeout + 30
     )
+    for ext in (".vo", ".vok", ".vos", ".glob"):
+        try:
+            (d / f"{name}{ext}").unlink()
+        except OSError:
+            pass
+    try:
+        (d / f".{name}.aux").unlink()
+    except OSError:
+        pass
     if rc != 0:
         return None, out, False
     m = re.search(r"=\s*(\[[^\]]*\])", out.replace("\n", " "))
@@ -188,13 +209,18 @@ def run_case_file(name, imports, defs, exprs, timeout=900):
 
 def coq_eval(name, imports, defs, expr, timeout=300):
     """Evaluate one Coq term with vm_compute and return the printed text."""
-    d = BUILD / "cases"
+    d = CASES
     d.mkdir(parents=True, exist_ok=True)
     path = d / f"{name}.v"
     path.write_text(
         f"From CubedV Require Import {imports}.\nOpen Scope nat_scope.\n{defs or ''}\nEval vm_compute in ({expr}).\n"
     )
-    rc, out = _run(["timeout", str(timeout), "coqc", "-Q", str(COQ), "CubedV", str(path)], cwd=d, timeout=timeout + 30)
+    rc, out = _run(["timeout", str(timeout), "coqc", "-noglob", "-Q", str(COQ), "CubedV", str(path)], cwd=d, timeout=timeout + 30)
+    for ext in (".vo", ".vok", ".vos", ".glob"):
+        try:
+            (d / f"{name}{ext}").unlink()
+        except OSError:
+            pass
     return out.strip()
 
 
@@ -272,7 +298,7 @@ class Ctx:
             for i in bad:
                 c = cs[i]
                 m = {"index": k + i, "desc": c.get("desc"), "expr": c["expr"][:2000]}
-                if c.get("show"):
+                if c.get("show") and len(rec["mismatches"]) < 3:     # what the model says: for the first few mismatches only
                     m["model_says"] = coq_eval(f"{self.prop}_{suite}_show", imports, defs, c["show"])[-1500:]
                 rec["mismatches"].append(m)
         return rec
@@ -364,7 +390,7 @@ def load_findings(prop):
 
 
 def write_replay(prop, kind, obj):
-    REPLAYS.mkdir(exist_ok=True)
+    REPLAYS.mkdir(parents=True, exist_ok=True)
     h = hashlib.sha1(json.dumps(obj, sort_keys=True, default=str).encode()).hexdigest()[:10]
     p = REPLAYS / f"{prop}_{kind}_{h}.json"
     p.write_text(json.dumps(obj, indent=1, default=str))
@@ -394,6 +420,19 @@ def main(argv):
         rc = mod.replay(ctx, obj)
         sys.exit(rc or 0)
 
+    # case files of earlier runs of this property are removed first
+    if CASES.exists():
+        for f in CASES.glob(f"{prop}_*"):
+            try:
+                f.unlink()
+            except OSError:
+                pass
+        for f in CASES.glob(f".{prop}_*"):
+            try:
+                f.unlink()
+            except OSError:
+                pass
+
     # 1. proofs ---------------------------------------------------------------
     ok_build, build_log = coq_build()
     propfile = f"Props/{prop}.v"
@@ -418,8 +457,9 @@ def main(argv):
     if getattr(mod, "TRANSLATED_KERNELS", False):
         from harness import translate
 
-        tok, tmsg, _ = translate.check()
-        translated = {"ok": tok, "message": tmsg, "kernels": list(translate.KERNELS)}
+        tk = list(mod.TRANSLATED_KERNELS)
+        tok, tmsg, _ = translate.check(tk, tag=prop)
+        translated = {"ok": tok, "message": tmsg, "kernels": tk}
         if not tok:
             proofs_ok = False
             pa_out = "translated kernels: " + tmsg
@@ -536,7 +576,7 @@ def main(argv):
         "wall_s": round(time.time() - ctx.t0, 2),
         "violations": violations,
     }
-    EVID.mkdir(exist_ok=True)
+    EVID.mkdir(parents=True, exist_ok=True)
     (EVID / f"{prop}.json").write_text(json.dumps(ev, indent=1, default=str) + "\n")
     for ln in lines:
         print(ln)
